@@ -412,3 +412,11 @@ def r10_backward_kill(ctx):
 
 
 RULES += [r10_backward_kill]
+
+
+def r11_backward_array_copies(ctx):
+    from . import C14
+    C14.r4b_offset_map_copies(ctx, rid="C11.r11", backward_only=True)
+
+
+RULES += [r11_backward_array_copies]
